@@ -102,20 +102,35 @@ def _pump(ctx, R, roles, li, T):
                         "store look-up passes (%s: %s, %s: %s); it must be (remote id, local id) of the caller's stream" % (show(t0), k0, show(t1), k1), f.loc(n.ast))
             R.check(sl in li.held(f, n), "LOCK-guard", sub + "|held", "look-up under the store lock", "store look-up without the store lock", f.loc(n.ast))
     R.count("KIND-find[%s]" % roles.tag, nfind, 2)
-    # the look-up matches the wire rule: plain find() for exact matching, find_allow_zeros() when zero ids are accepted
-    for n in g.live_nodes():
-        for e in n.exprs():
-            for x in ast.walk(e):
-                if isinstance(x, ast.IfExp) and any(call_attr(c) in ("find", "find_allow_zeros") for c in ast.walk(x) if isinstance(c, ast.Call)):
-                    t = unawait(x.test)
-                    neg = isinstance(t, ast.UnaryOp) and isinstance(t.op, ast.Not)
-                    nm = varkey(unawait(t.operand if neg else t))
-                    body_f = [call_attr(c) for c in ast.walk(x.body) if isinstance(c, ast.Call) and call_attr(c) in ("find", "find_allow_zeros")]
-                    else_f = [call_attr(c) for c in ast.walk(x.orelse) if isinstance(c, ast.Call) and call_attr(c) in ("find", "find_allow_zeros")]
-                    strict, zeros = (body_f, else_f) if neg else (else_f, body_f)
-                    R.check(nm == "allow_zeros" and strict == ["find"] and zeros == ["find_allow_zeros"], "KIND-find", "%s|mode|%s" % (f.qualname, norm_stmt(x)[:60]),
-                            "exact look-up unless allow_zeros, zero fall-backs only with allow_zeros (same rule as for packets read off the wire)",
-                            "the store look-up uses the zero fall-backs exactly when the wire match does not (or vice versa): a stream can be handed a parked packet that the wire rule would have refused", f.loc(n.ast))
+    # the look-up matches the wire rule: plain find() for exact matching, find_allow_zeros() when zero ids are accepted - at EVERY look-up the
+    # choice is decided by `allow_zeros` (an arm of a conditional expression on it, or a branch taken on it)
+    azk = key(ast.Name(id="allow_zeros", ctx=ast.Load()))
+    if "allow_zeros" in f.params:
+        df_ = ctx.df(f)
+        for n in g.live_nodes():
+            for e in n.exprs():
+                arms = {}      # id(call) -> True when it sits in the arm taken for allow_zeros, False for the other arm
+                for x in ast.walk(e):
+                    if isinstance(x, ast.IfExp):
+                        t = unawait(x.test)
+                        neg = isinstance(t, ast.UnaryOp) and isinstance(t.op, ast.Not)
+                        if varkey(unawait(t.operand if neg else t)) == "allow_zeros":
+                            for arm, pol in ((x.body, not neg), (x.orelse, neg)):
+                                for c in ast.walk(arm):
+                                    if isinstance(c, ast.Call) and id(c) not in arms:
+                                        arms[id(c)] = pol
+                for c in ast.walk(e):
+                    if isinstance(c, ast.Call) and call_attr(c) in ("find", "find_allow_zeros") and _store_calls(ctx, f, n, (call_attr(c),)):
+                        mode = arms.get(id(c))
+                        if mode is None:
+                            for fa in df_.facts(n):
+                                if fa[0] == ("truthy", azk):
+                                    mode = fa[1]
+                        want = call_attr(c) == "find_allow_zeros"
+                        R.check(mode is want, "KIND-find", "%s|mode|%s" % (f.qualname, norm_stmt(c)[:60]),
+                                "exact look-up unless allow_zeros, zero fall-backs only with allow_zeros (same rule as for packets read off the wire)",
+                                "the store look-up `%s` is %s: it must use the zero fall-backs exactly when the wire match does (allow_zeros), or a stream is handed a parked packet the wire rule would have refused / never finds one it would have accepted"
+                                % (norm_stmt(c)[:50], "not decided by allow_zeros" if mode is None else "made on the wrong side of the allow_zeros test"), f.loc(n.ast))
     # after a packet was taken out of the store the look-up is refreshed before the next get (the pair may be exhausted or gone)
     get_nodes = [n for n in g.live_nodes() if _store_calls(ctx, f, n, ("get",))]
     find_nodes = [n for n in g.live_nodes() if _store_calls(ctx, f, n, ("find", "find_allow_zeros"))]
